@@ -4979,6 +4979,12 @@ class PyCdlib:
 
             _check_iso9660_directory(name, self.interchange_level)
 
+            # Creating the record for a Rock Ridge directory already counts it
+            # in the link counts of the parent (and a deep directory needs the
+            # relocation directory first), so a parent that cannot take the
+            # name has to be refused before any of that.
+            parent.check_new_child(name)
+
             relocated = False
             fake_dir_rec = None
             orig_parent = None
